@@ -3,7 +3,12 @@ package harness
 import "fmt"
 
 // txn alphabet of C01/C02/C08: single-key Set/Delete on every key, two-key transactions on every pair
-func seqTxnAlphabet(twoKey bool) []txProg {
+func seqTxnAlphabet(twoKey bool) []txProg { return seqTxnAlphabetOver(seqKeys, twoKey) }
+
+// sizeKeys: a short key, a 100-byte key with 3 000-byte values, the largest key with the largest values (see xKey)
+var sizeKeys = []string{"k", "k!#100", "k@1#max"}
+
+func seqTxnAlphabetOver(seqKeys []string, twoKey bool) []txProg {
 	var a []txProg
 	for _, k := range seqKeys {
 		a = append(a, txProg{Update: true, Ops: []txOp{{Op: "S", K: k}}, End: "C"})
@@ -29,6 +34,8 @@ var (
 	// one table per commit, three tables in L0 before it compacts: L0 compaction picks the front table and what
 	// overlaps it, so a newer table can go down to L1 while an older, disjoint one stays in L0
 	cfgL0Two = dbCfg{Mem: 1, Imm: 2, Block: 4096, L0: 2, Ratio: 1, SL: 1}
+	// for the size plans: two of the largest entries fit into one memtable and one data block
+	cfgBigBlocks = dbCfg{Mem: 150000, Imm: 1, Block: 140000, L0: 1, Ratio: 2, SL: 2}
 )
 
 // enumSeqs calls f for every sequence of length n over alphabet (as index vectors).
@@ -52,6 +59,7 @@ func c01Units(tier string) []Unit {
 	var units []Unit
 	full := seqTxnAlphabet(true)
 	single := seqTxnAlphabet(false)
+	sizes := seqTxnAlphabetOver(sizeKeys, true)
 	type plan struct {
 		name    string
 		cfg     dbCfg
@@ -69,6 +77,8 @@ func c01Units(tier string) []Unit {
 			{"all-seqs/d3/l0=2", cfgL0Two, full, 3, []int{0}, true},
 			{"dev1/d2/rotate-always", cfgRotateAlways, full, 2, []int{0, 1}, false},
 			{"dev1/d2/unbuffered", cfgUnbuffered, single, 2, []int{0, 1}, false},
+			{"sizes/d3/rotate-always", cfgRotateAlways, sizes, 3, []int{0}, false},
+			{"sizes/d3/big-blocks", cfgBigBlocks, sizes, 3, []int{0}, false},
 		}
 	} else {
 		plans = []plan{
@@ -82,6 +92,9 @@ func c01Units(tier string) []Unit {
 			{"dev1/d3/unbuffered", cfgUnbuffered, single, 3, []int{0, 1}, true},
 			{"dev2/d2/rotate-always", cfgRotateAlways, single, 2, []int{0, 1, 2}, false},
 			{"dev2/d2/small", cfgSmall, full, 2, []int{0, 1, 2}, false},
+			{"sizes/d4/rotate-always", cfgRotateAlways, sizes, 4, []int{0}, true},
+			{"sizes/d4/big-blocks", cfgBigBlocks, sizes, 4, []int{0}, true},
+			{"sizes/d3/l0=2", cfgL0Two, sizes, 3, []int{0, 1}, true},
 		}
 	}
 	for _, pl := range plans {
